@@ -50,6 +50,11 @@ def gen(ctx):
                 "data:%s clone clone clonekeep" % hx(b"x" * 5000)):
         for t in ("capture", "communicate", "join"):
             specs.append(f"{CMDS[0]} {ops} term:{t}")
+    # detached() before and after clone(): every copy keeps the setting it had when it was made
+    for ops in ("det clone", "det clonekeep", "clone det", "det clone clone", "det arg:%s clone env:%s:%s" % (hx(b"x"), hx(b"A"), hx(b"1")),
+                "clone", "det"):
+        for cmd in (CMDS[0], CMDS[3]):
+            specs.append(f"{cmd} {ops} term:popen")
     for t in TERMS:
         # zero bytes of input data are still input data: refused loudly by the terminators that cannot deliver it
         specs.append(f"{CMDS[0]} data: term:{t}")
@@ -289,6 +294,10 @@ def oracle(c, base, viol):
                 viol(f"child environment differs from the ordered edits: unexpected {extra!r}, missing {missing!r}")
     if ocwd != cwd:
         viol(f"child working directory request {ocwd!r}, the last cwd() call said {cwd!r}")
+    # detached() is part of the description too: the Popen of a detached command is dropped without waiting, any other is waited for
+    if started and c["spec"].split()[-1] == "term:popen" and res == "ok" and waited == det:
+        viol(f"the command was {'detached' if det else 'not detached'} by the calls, but dropping its Popen "
+             f"{'waited for it' if waited else 'did not wait for it'}")
     npipe = sum(1 for s in st.values() if s == "P")
     if pipes != npipe:
         viol(f"{pipes} stream pipes were created, the configuration asks for {npipe}")
